@@ -11,8 +11,9 @@ import (
 
 var (
 	regFullSystemPolicy = util.ToRegexRepl([]string{
-		`r(PU|U)x,`, `rPx,`,
-		`r(pu|u)x,`, `rpx,`, // modes already lower-cased by the hotfix builder
+		// (the access of a rule: not text that ends the same way, as {crux,...} or -> crux,)
+		`\br(PU|U)x,`, `rPx,`,
+		`\br(pu|u)x,`, `rpx,`, // modes already lower-cased by the hotfix builder
 	})
 )
 
